@@ -12,11 +12,12 @@ JUNK_BASIC = ['6400', '0500', '0600', 'ff', '0a0102', '640350017f', '060107']
 
 
 def mc_cfg(name, front, entries, maxt, T, V, R='R_one', E='E_one', J='J_one', dev='NoDev', live=False, defer='Def_no', races='Race_no',
-           invs=INVS, props=PROPS):
+           invs=INVS, props=PROPS, reconn=False):
     p = os.path.join(tlc.BUILD, name + '.cfg')
     tlc.write_cfg(p, constants={'Front': '"%s"' % front, 'MaxEntries': entries, 'MaxT': maxt,
                                 'Templates': '<- T_' + T, 'DataSet': '<- D_' + T, 'Verdicts': '<- V_' + V,
-                                'Reasons': '<- ' + R, 'Envs': '<- ' + E, 'Junk': '<- ' + J, 'Races': '<- ' + races, 'Defer': '<- ' + defer, 'Dev': '<- ' + dev},
+                                'Reasons': '<- ' + R, 'Envs': '<- ' + E, 'Junk': '<- ' + J, 'Races': '<- ' + races, 'Defer': '<- ' + defer, 'Dev': '<- ' + dev,
+                                'Reconn': 'TRUE' if reconn else 'FALSE'},
                   invariants=invs, properties=list(props) + (['Finishes'] if live else []))
     return p
 
@@ -27,7 +28,7 @@ def trace_cfg(front, dev):
                   constants={'Front': '"%s"' % front, 'MaxEntries': 8, 'MaxT': 100000,
                              'Templates': '<- TrNone', 'DataSet': '<- TrNone', 'Verdicts': '<- TrVerdicts',
                              'Reasons': '<- TrReasons', 'Envs': '<- TrEnvs', 'Junk': '<- TrJunk',
-                             'Races': '<- Race_no', 'Defer': '<- Def_both', 'Dev': '<- ' + ('DevLegacy' if dev == 'legacySlowValidator' else 'NoDev')},
+                             'Races': '<- Race_no', 'Defer': '<- Def_both', 'Reconn': 'TRUE', 'Dev': '<- ' + ('DevLegacy' if dev == 'legacySlowValidator' else 'NoDev')},
                   invariants=['TypeOK', 'NoResidue'], constraints=['Mark'], postcondition='Post')
     return p
 
@@ -86,7 +87,7 @@ def events_of_path(path, vmap=None):
             evs.append({'a': 'RecvData', 'd': a[0], 'env': a[1], 'x': sorted(a[2]) if len(a) > 2 else []})
         elif act in ('ValFinish', 'LateFinish'):
             evs.append({'a': 'ValFinish', 'e': a[0], 'v': vmap.get(a[1], a[1])})
-        elif act in ('Fire', 'Tick', 'Shutdown'):
+        elif act in ('Fire', 'Tick', 'Shutdown', 'Connect'):
             evs.append({'a': act})
         elif act == 'Cancel':
             evs.append({'a': act, 'e': a[0]})
@@ -194,7 +195,7 @@ def random_schedule(rng, front, n_events, weights=None, junk=None, verdicts=None
                     max_entries=6, defer_p=0.2, race_p=0.15):
     """Generates stimuli on the fly while running the real code (the driver needs to know which
     validators are in flight and which timers are due). Returns the recorded trace record."""
-    w = dict(Express=5, RecvData=6, ValFinish=6, Time=6, Cancel=1, Shutdown=0.2, RecvNack=2, RecvJunk=1, Await=3)
+    w = dict(Express=5, RecvData=6, ValFinish=6, Time=6, Cancel=1, Shutdown=0.2, Connect=3, RecvNack=2, RecvJunk=1, Await=3)
     if weights:
         w.update(weights)
     verdicts = verdicts or (['PASS', 'PASS', 'FAIL', 'TIMEOUT', 'SILENCE', 'BYPASS', 'RAISE'] if front == 'v2' else ['T', 'T', 'F'])
@@ -224,6 +225,8 @@ def random_schedule(rng, front, n_events, weights=None, junk=None, verdicts=None
                 choices.append('Express')
             if not up and len(entries) < max_entries:
                 choices.append('ExpressDown')
+            if not up:
+                choices.append('Connect')
             if up:
                 choices += ['RecvData', 'RecvNack', 'RecvJunk', 'Shutdown']
             if pend_val:
@@ -239,8 +242,8 @@ def random_schedule(rng, front, n_events, weights=None, junk=None, verdicts=None
                 dig = 0
                 cbp = rng.random() < 0.4
                 if rng.random() < 0.15:
+                    # CanBePrefix together with an implicit digest still names one packet
                     dig = rng.choice([1, 2]) + 10 * NAMES.index(name)
-                    cbp = False
                 t = {'name': name, 'cbp': cbp, 'dig': dig, 'life': rng.choice([1, 1, 2, 3])}
                 if a == 'Express':
                     emit({'a': a, 't': t, 'defer': rng.random() < defer_p})
@@ -278,7 +281,7 @@ def random_schedule(rng, front, n_events, weights=None, junk=None, verdicts=None
                     emit({'a': 'Tick'})
             elif a == 'Cancel':
                 emit({'a': a, 'e': rng.choice(unfinished) + 1})
-            elif a == 'Shutdown':
+            elif a in ('Shutdown', 'Connect'):
                 emit({'a': a})
         # drain: resolve validators, pass every deadline; everything must have finished
         for _ in range(12):
